@@ -215,7 +215,8 @@ def jobs(tier, seed):
         for stacks in [(2, 4, 3), (3, 2, 2), (2, 2, 5)] + ([(4, 4, 4), (2, 5, 3, 4)] if th else []):
             out.append(_j('tiny-3-cash-runouts', C.custom(stacks, C.TWO_STREET_BURN, deck='KUHN9', hand_types=('KuhnAny', 'JQLow'),
                                                          antes=1, mode='cash', autos=semi), warn=warn,
-                          opts={'runouts': (None, 1, 2), 'runout_players': True, 'show': (None, False)}))
+                          opts={'runouts': (None, 1, 2), 'runout_players': True, 'show': (None, False)},
+                          dev_bound=None if th else 3))
             out.append(_j('tiny-3-manual', C.custom(stacks, C.TWO_STREET_BURN, deck='KUHN9', hand_types=('KuhnAny',),
                                                    antes=1, blinds=(1, 2), autos='NONE', boards=2), warn=warn,
                           opts={'players': True}, dev_bound=3 if not th else 5))
@@ -234,7 +235,7 @@ def jobs(tier, seed):
             out.append(_j('razz-3', C.stud((3, 5, 9), autos='NONE', game='FixedLimitRazz'), warn=warn, dev_bound=3))
     for j in out:
         j.setdefault('state_cap', 60000 if th else 6000)
-        j.setdefault('time_cap', 800 if th else 80)
+        j.setdefault('time_cap', 1800 if th else 400)
     return out
 
 
